@@ -23,6 +23,7 @@ type Program struct {
 	Funcs map[string]*ssa.Function // canonical key -> function (see funcKey)
 	Dir   string
 	MutableGlobals map[*ssa.Global]bool // package-level variables assigned outside package initialisation
+	ErrGlobals     map[*ssa.Global]bool // package-level variables initialised with errors.New / fmt.Errorf
 }
 
 func loadProgram(dir string, patterns []string) (*Program, error) {
@@ -66,6 +67,33 @@ func loadProgram(dir string, patterns []string) (*Program, error) {
 		if k != "" {
 			if _, dup := P.Funcs[k]; !dup || fn.Synthetic == "" {
 				P.Funcs[k] = fn
+			}
+		}
+	}
+	// package-level error values created by errors.New / fmt.Errorf in the package initialiser are non-nil
+	P.ErrGlobals = map[*ssa.Global]bool{}
+	for fn := range ssautil.AllFunctions(prog) {
+		if !(fn.Name() == "init" || strings.HasPrefix(fn.Name(), "init#") || fn.Synthetic == "package initializer") {
+			continue
+		}
+		for _, b := range fn.Blocks {
+			for _, ins := range b.Instrs {
+				st, ok := ins.(*ssa.Store)
+				if !ok {
+					continue
+				}
+				g, ok := st.Addr.(*ssa.Global)
+				if !ok {
+					continue
+				}
+				if call, ok := st.Val.(*ssa.Call); ok {
+					if f := call.Call.StaticCallee(); f != nil && f.Pkg != nil {
+						n := f.Pkg.Pkg.Path() + "." + f.Name()
+						if n == "errors.New" || n == "fmt.Errorf" {
+							P.ErrGlobals[g] = true
+						}
+					}
+				}
 			}
 		}
 	}
